@@ -147,7 +147,11 @@ func mixedArgs(kvs []gen.KV) []any {
 		h := fnv.New32a()
 		h.Write([]byte(kv.Key))
 		plainGroup := kv.Val.Kind == "group" && kv.Val.Go == nil
-		if h.Sum32()%2 == 0 && !plainGroup {
+		pair := h.Sum32()%2 == 0
+		if kv.Key == "" {
+			pair = currentCase%2 == 0 // the empty key too is given in both forms
+		}
+		if pair && !plainGroup {
 			as = append(as, kv.Key, kv.Val.Go)
 		} else {
 			as = append(as, kv.Attr())
